@@ -21,7 +21,7 @@ Compare(e) ==
     IF out = "fail" THEN (X.out = "RuntimeError" \/ Drift(e.id, <<"outcome", X.out, "design fails">>))
     ELSE IF X.out # "ok" THEN Drift(e.id, <<"outcome", X.out, "design schedules">>)
     ELSE /\ (X.rows = R.rows \/ Drift(e.id, "rows"))
-         /\ ((X.start = R.start /\ X.end = R.end) \/ Drift(e.id, "dates"))
+         /\ ((X.start = R.start /\ X.end = R.end) \/ Drift(e.id, <<"dates", X.start, R.start, X.end, R.end>>))
 
 TInit == k = 1 /\ Start(Batch[1].I)
 
